@@ -14,8 +14,8 @@ EXTENDS Findings, Conf, Extras, Json, IOUtils
 Rec  == ndJsonDeserialize(IOEnv.TRACE)
 Only == IOEnv.ONLY
 
-VARIABLES l, aux, hits, nviol, keys
-vars == <<l, aux, hits, nviol, keys>>
+VARIABLES l, aux, hits, nviol, keys, ndist
+vars == <<l, aux, hits, nviol, keys, ndist>>
 
 Bump(h, tags) == [t \in (DOMAIN h) \cup tags |->
                     (IF t \in DOMAIN h THEN h[t] ELSE 0) + (IF t \in tags THEN 1 ELSE 0)]
@@ -27,6 +27,7 @@ TraceInit ==
   /\ hits = [t \in {"events"} |-> 1]
   /\ nviol = 0
   /\ keys = {}
+  /\ ndist = 0
 
 Report(line, e, tags, S, T) ==
   \A t \in tags : PrintT(<<"VIOL", line, e.scn, e.i, t, FindingOf(t, S, e, T)>>)
@@ -38,13 +39,14 @@ TraceStep ==
          T == e.post
      IN IF e.kind # "reset" /\ ~(SafeWorld(S) /\ SafeWorld(T))
         THEN \* reserves beyond what TLC's integers can multiply: no verdict on this step
-             /\ aux' = aux /\ nviol' = nviol /\ keys' = keys
+             /\ aux' = aux /\ nviol' = nviol /\ keys' = keys /\ ndist' = ndist
              /\ hits' = Bump(hits, {"events", "unsafe_skipped"})
         ELSE IF e.kind = "reset"
         THEN /\ aux' = AuxInit(T)
              /\ hits' = Bump(hits, {"events", "scenarios"})
              /\ nviol' = nviol
-             /\ keys' = keys
+             /\ keys' = {}
+             /\ ndist' = ndist + Cardinality(keys)
         ELSE LET bad == IF Only \in {"CONF", "EXTRA"} THEN {} ELSE Violations(Only, S, e, T, aux)
                  ant == IF Only = "CONF"
                         THEN (IF e.kind \in {"block", "query"} \/ Modelled(S, e) THEN {"modelled", e.tx.m} ELSE {"unmodelled"})
@@ -58,8 +60,9 @@ TraceStep ==
                 /\ hits' = Bump(hits, ant \cup {"events"})
                 /\ nviol' = nviol + Cardinality(bad)
                 /\ keys' = IF ant = {} THEN keys ELSE keys \cup {<<e.dpre, e.fault, ToJson(e.tx)>>}
+                /\ ndist' = ndist
   /\ l' = l + 1
-  /\ (l' = Len(Rec)) => PrintT(<<"HITS", ToJson(Bump(hits', {}) @@ [distinct_nontrivial |-> Cardinality(keys')])>>)
+  /\ (l' = Len(Rec)) => PrintT(<<"HITS", ToJson(Bump(hits', {}) @@ [distinct_nontrivial |-> ndist' + Cardinality(keys')])>>)
 
 TraceSpec == TraceInit /\ [][TraceStep]_vars
 
